@@ -40,7 +40,8 @@ pub struct Stat {
         long,
         default_value = "6",
         use_value_delimiter = true,
-        value_name = "INT,..."
+        value_name = "INT,...",
+        value_parser = crate::parse_precision
     )]
     pub precision: Vec<usize>,
 
